@@ -262,7 +262,7 @@ func (c *Ctx) ruleRetryRequeue(rr *RuleRep, rr18 *RuleRep, modeOpt ...string) {
 		c.ruleRetryLoopExits(rr, a, f, key, iv.call, iv.idx, failEdge, tailOf, cursor != nil)
 	}
 	// nothing is invoked after the first failure
-	if loss || mode == "order" {
+	if loss {
 	} else if region[iv.call] {
 		rr.Bad(key+"/stop", iv.call.Pos(), "after a retransmission failed, later entries are still executed on the broken connection (and the re-queued tail is executed as well): entries are transmitted twice / out of order")
 	} else {
